@@ -337,6 +337,13 @@ func loadMutants(verif string) ([]mutantDef, error) {
 		}
 		all = append(all, ms...)
 	}
+	seen := map[string]bool{}
+	for _, m := range all {
+		if seen[m.ID] {
+			return nil, fmt.Errorf("duplicate mutant id %s", m.ID)
+		}
+		seen[m.ID] = true
+	}
 	return all, nil
 }
 
